@@ -145,7 +145,21 @@ func (sc *scenario) run() {
 					op = "release"
 				}
 			default:
-				switch r.Intn(12) {
+				switch r.Intn(13) {
+				case 12:
+					// a ServerPreConnectEvent subscriber redirects the request (often onto the current server) or denies it
+					switch r.Intn(4) {
+					case 0:
+						op = "edeny " + hx.Pick(r, names)
+					case 1:
+						op = "ereq " + hx.Pick(r, names) + " " + hx.Pick(r, names)
+					default:
+						if cur != "-" {
+							op = "ereq " + hx.Pick(r, others(cur)) + " " + cur
+						} else {
+							op = "ereq " + hx.Pick(r, names) + " " + hx.Pick(r, names)
+						}
+					}
 				case 0, 1, 2:
 					op = "req " + hx.Pick(r, names)
 				case 3, 4:
@@ -265,6 +279,10 @@ func (sc *scenario) run() {
 				kept = append(kept, [2]string{f[1], f[2]})
 			case "conn":
 				impl = hx.Guard(30*time.Second, func() string { return w.connectKept(f[1]) + " " + w.observe(false) })
+			case "ereq": // Connect(f[1]) redirected by a ServerPreConnectEvent subscriber to f[2]
+				impl = hx.Guard(30*time.Second, func() string { return w.connectWithEvent(f[1], f[2]) + " " + w.observe(false) })
+			case "edeny": // Connect(f[1]) denied by a ServerPreConnectEvent subscriber
+				impl = hx.Guard(30*time.Second, func() string { return w.connectWithEvent(f[1], "") + " " + w.observe(false) })
 			case "tconn":
 				lateStalled = true
 				impl = hx.Guard(30*time.Second, func() string {
@@ -401,6 +419,12 @@ func main() {
 	for _, p := range []proto.Protocol{47, 340, 765, 767} {
 		scs = append(scs, &scenario{proto: p, try: all, rng: hx.NewRng(1),
 			fixed: []string{"login", "script s2 late", "tconn s2", "req s3", "release", "req s2", "req s1"}})
+	}
+	// a ServerPreConnectEvent subscriber redirects a request onto the player's CURRENT server: AlreadyConnected, no dial
+	for _, p := range []proto.Protocol{47, 340, 765, 767} {
+		scs = append(scs, &scenario{proto: p, try: all, rng: hx.NewRng(1),
+			fixed: []string{"login", "ereq s2 s1", "ereq s2 s3", "ereq s1 s3", "edeny s2", "ereq s3 s2", "req s2",
+				"script s3 s:a|start s3", "ereq s1 s2", "release"}})
 	}
 	// modern-only faults in the configuration phase
 	for _, p := range modern {
